@@ -17,7 +17,7 @@ for d in "${DEMOS[@]}"; do mkdir -p $S/$(dirname $d); cp $AW/$d $S/$d; PKGS+=("$
 mapfile -t PKGS < <(printf '%s\n' "${PKGS[@]}" | sort -u)
 rundemo(){ local rc=0; for p in "${PKGS[@]}"; do
    if ls $S/$p/*.py >/dev/null 2>&1 && ! ls $S/$p/*.go >/dev/null 2>&1; then for f in $S/$p/*demo*.py; do python3 $f >/tmp/mv/$ID.demo.log 2>&1 || rc=1; done
-   elif ls $S/$p/*_test.go >/dev/null 2>&1; then (cd $S/$p && go test -vet=off -count=1 . >/tmp/mv/$ID.demo.log 2>&1) || rc=1; fi; done; return $rc; }
+   elif ls $S/$p/*_test.go >/dev/null 2>&1; then (cd $S/$p && go test -vet=off -count=1 ${DEMO_RUN:+-run $DEMO_RUN} . >/tmp/mv/$ID.demo.log 2>&1) || rc=1; fi; done; return $rc; }
 rundemo; R0=$?
 echo "demo without patch: rc=$R0 (want 0)"
 git -C $S apply --3way $AW/MUT/patch.diff 2>/tmp/mv/$ID.apply.log || git -C $S apply $AW/MUT/patch.diff || { echo "PATCH DOES NOT APPLY"; cat /tmp/mv/$ID.apply.log; exit 1; }
